@@ -1,4 +1,5 @@
 import UsualProofs.C10.Script
+import UsualProofs.C10.Script2
 /-!
 # C10 — a single allocation failure (the k-th, for every k) is reported cleanly, corrupts and
 leaks nothing
@@ -197,6 +198,108 @@ theorem slab_cxtree_hmac_fault_atomic (b b' : SB) (t t' : CT) (sub : Option Id) 
 example : (hmNewA { fails := [2] }).1.isNone ∧ (hmNewA { fails := [2] }).2.live = [] ∧
           (hmNewA { fails := [2] }).2.count = 2 := by decide
 
+/-! ## families built on the models of C09 (pool, mempool), C03 (JSON builder), C01/C19 (talloc)
+
+These reuse the other properties' models unchanged: the C09 / C01 models take the answer of the
+underlying allocator as an oracle, and here the oracle is the fault-injecting allocator. -/
+
+/-- **cx pool** (`Usual.C09.Pool`): `cx_alloc` / `cx_realloc` on a pool that return NULL obtained
+    nothing from the parent (the pool value is unchanged — it is not even returned); when they
+    succeed every parent block is a segment of the pool -/
+theorem pool_fault_atomic (p : Usual.C09.Pool) (ptr len : Nat) (s s' : AS) :
+    (poolAllocA p len s = (none, s') → s'.live = s.live) ∧
+    (poolReallocA p ptr len s = (none, s') → s'.live = s.live) ∧
+    (∀ r, poolAllocA p len s = (some r, s') →
+        ∀ o, Holds s (poolOwned p ++ o) → Holds s' (poolOwned r.1 ++ o)) ∧
+    (∀ r, poolReallocA p ptr len s = (some r, s') →
+        ∀ o, Holds s (poolOwned p ++ o) → Holds s' (poolOwned r.1 ++ o)) :=
+  ⟨poolAllocA_none, poolReallocA_none, fun r h => poolAllocA_some (p' := r.1) (q := r.2) h,
+   fun _ h => poolReallocA_some h⟩
+
+-- non-vacuity: a fresh 1024-byte pool, 2000 bytes do not fit, the new segment is refused
+example :
+    let p := (poolNewA 0 8 {}).1.getD default
+    let s1 : AS := { (poolNewA 0 8 {}).2 with fails := [2] }
+    (poolNewA 0 8 {}).1.isSome = true ∧ (poolAllocA p 2000 s1).1 = none ∧
+    (poolAllocA p 2000 s1).2.live = [0] ∧ (poolAllocA p 2000 s1).2.count = 2 ∧
+    (poolAllocA p 100 s1).1.isSome = true := by decide
+
+/-- **mempool / regcomp** (`Usual.C09.MemPool`): `mempool_alloc` returning NULL obtained nothing;
+    `regcomp` — whatever sequence of pool allocations the pattern needs — leaves nothing
+    allocated when it returns an error (REG_ESPACE from any allocation, or a syntax error), and
+    after a successful `regcomp`, `regfree` returns every block -/
+theorem mempool_regcomp_fault_no_leak (mp : Usual.C09.MemPool) (n : Nat) (sizes : List Nat)
+    (e : Bool) (s s' : AS) :
+    (mpAllocA mp n s = (none, s') → s'.live = s.live) ∧
+    (regcompA n sizes e s = (none, s') → ∀ o, Holds s o → Holds s' o) ∧
+    (∀ rx, regcompA n sizes e s = (some rx, s') →
+        ∀ o, Holds s o → Holds s' (mpOwned rx ++ o) ∧ Holds (regfreeA rx s') o) :=
+  ⟨mpAllocA_none, regcompA_none, fun _ h => regcompA_some h⟩
+
+-- non-vacuity: three pool blocks are needed, the third calloc fails: REG_ESPACE, nothing left
+example : (regcompA 40 [300, 400, 900, 50] false { fails := [3] }).1 = none ∧
+          (regcompA 40 [300, 400, 900, 50] false { fails := [3] }).2.live = [] ∧
+          (regcompA 40 [300, 400, 900, 50] false { fails := [3] }).2.count = 3 := by decide
+
+/-- **JSON builder** (`Usual.C03.Heap` in a `Usual.C09.Pool`), for every size of every
+    allocation: a call in which an allocation failed answers NULL / false and leaves the heap of
+    values — every container's elements, `v_size`, every attachment flag — exactly as it was; a
+    call whose allocations succeed does what C03's builder model says; in both cases every
+    parent block is a segment of the context's pool -/
+theorem json_builder_fault_atomic (sz : JSizes) (cyc : Bool) (c c' : JCtx) (op : Usual.C03.Op)
+    (r : Usual.C03.Ret) (oom : Bool) (s s' : AS) (h : jsStepA sz cyc c op s = ((c', r, oom), s')) :
+    (oom = true → c'.heap = c.heap ∧ r = failRet op) ∧
+    (oom = false → (c'.heap, r) = c.heap.step true cyc op) ∧
+    (∀ o, Holds s (poolOwned c.pool ++ o) → Holds s' (poolOwned c'.pool ++ o)) := by
+  refine ⟨?_, ?_, (jsStepA_holds h).2⟩
+  · intro ho; subst ho; exact jsStepA_oom h
+  · intro ho; subst ho; exact jsStepA_ok h
+
+/-- **json_parse**: NULL for lack of memory ⇒ the heap of values is untouched -/
+theorem json_parse_fault_atomic (cyc : Bool) (sizes : List Nat) (v : Usual.C03.JVal) (c c' : JCtx)
+    (r : Option Nat) (s s' : AS) (h : jsParseA cyc sizes v c s = ((c', r, true), s')) :
+    c'.heap = c.heap ∧ r = none := jsParseA_oom h
+
+/-- **talloc** (`Usual.C01.step`, repaired code): a call failed by the underlying allocator is
+    C01's step with `fail = true`; in every well-formed state with acyclic holder graph it leaves
+    the object graph as it was (C01 `failed_op_unchanged`), obtains and releases no block; and
+    after every call — failed or not — the allocator holds exactly one block per live chunk -/
+theorem talloc_fault_atomic (x : TaSt) (c : TaCall) (s : AS) (rk : Nat → Nat)
+    (hwf : Usual.C01.wfOK x.t = true) (hrk : Usual.C01.Ranked rk x.t) (ht : x.tracks)
+    (hoom : (taStepA x c s).1.2.2 = true) (hret : (taStepA x c s).1.2.1 = -1) :
+    Usual.C01.absState (taStepA x c s).1.1.t = Usual.C01.absState x.t ∧
+    (taStepA x c s).1.1.blk = x.blk ∧ (taStepA x c s).2.live = s.live :=
+  taStepA_fault_atomic x c s rk hwf hrk ht hoom hret
+
+/-- with a memory limit: a failed `talloc_size`-family call leaves every object and every
+    memlimit counter as it was (C19 `failed_allocation_changes_nothing`) -/
+theorem talloc_alloc_fault_keeps_counters (x : TaSt) (p : Option Nat) (n : Nat) (f : Bool) (s : AS)
+    (rk : Nat → Nat) (hwf : Usual.C01.wfOK x.t = true) (hrk : Usual.C01.Ranked rk x.t)
+    (hoom : (taStepA x (.alloc p n f) s).1.2.2 = true) :
+    (taStepA x (.alloc p n f) s).1.2.1 = -1 ∧
+    ∀ j, (taStepA x (.alloc p n f) s).1.1.t.get j = x.t.get j :=
+  taStepA_alloc_fault_counters x p n f s rk hwf hrk hoom
+
+/-- **talloc, no leak under any fault schedule**: after any history of calls the allocator holds
+    exactly the blocks of the chunks still live, so once no chunk is live (C01
+    `all_roots_freed_balanced`: no top-level object left) it holds nothing of them -/
+theorem talloc_history_no_leak (cs : List TaCall) (s : AS) (o : List Id) (h : Holds s o)
+    (hne : cs ≠ []) (hd : ∀ i, (taRun cs {} s).1.t.live i = false) :
+    Holds (taRun cs {} s).2 o := by
+  obtain ⟨h1, h2⟩ := taRun_holds cs {} s o (by simpa [TaSt.owned] using h)
+  rw [ta_all_dead_no_blocks _ (h2 hne) hd] at h1
+  simpa using h1
+
+-- non-vacuity: root, child, a reference whose TRef allocation fails, a shrinking realloc that
+-- fails, free of the root: every failing call answers -1 and in the end nothing is allocated
+example :
+    let cs := [TaCall.alloc none 8 true, .alloc (some 0) 100 false, .alloc (some 0) 16 false,
+               .reference (some 2) 1, .realloc (some 0) 1 10, .free 0]
+    let r := taRun cs {} { fails := [4, 5] }
+    r.2.live = [] ∧ r.2.count = 5 ∧ (∀ i, i < 5 → r.1.t.live i = false) ∧
+    (taStepA (taRun (cs.take 3) {} { fails := [4, 5] }).1 (.reference (some 2) 1)
+        (taRun (cs.take 3) {} { fails := [4, 5] }).2).1.2 = (-1, true) := by decide
+
 /-! ## scripts: create, any operations, destroy — under every fault schedule -/
 
 /-- the per-operation facts above, packaged per module (`Laws`): creation failure leaves the
@@ -205,8 +308,11 @@ example : (hmNewA { fails := [2] }).1.isNone ∧ (hmNewA { fails := [2] }).2.liv
     returns everything owned -/
 theorem modules_lawful :
     Laws cbMod ∧ Laws spMod ∧ Laws mdMod ∧ (∀ n, Laws (htMod n)) ∧ Laws hpMod ∧ Laws slMod ∧
-    Laws mbMod ∧ (∀ n, Laws (sbMod n)) ∧ Laws ctMod ∧ Laws hmMod :=
-  ⟨cbLaws, spLaws, mdLaws, htLaws, hpLaws, slLaws, mbLaws, sbLaws, ctLaws, hmLaws⟩
+    Laws mbMod ∧ (∀ n, Laws (sbMod n)) ∧ Laws ctMod ∧ Laws hmMod ∧
+    (∀ i al, (al = 0 ∨ Usual.C09.isPowerOf2 al = true) → Laws (poolMod i al)) ∧ Laws mpMod ∧
+    (∀ sz cyc i, Laws (jsMod sz cyc i)) :=
+  ⟨cbLaws, spLaws, mdLaws, htLaws, hpLaws, slLaws, mbLaws, sbLaws, ctLaws, hmLaws,
+   poolLaws, mpLaws, jsLaws⟩
 
 /-- **No leak, whatever fails.**  For every lawful module, every operation list and EVERY
     allocator state — i.e. every set of failing request numbers — after create / operations /
